@@ -178,3 +178,154 @@ func zzC13_seq() {
 	zzAssert(len(x.DC.Creator) == 3 && zzStrEq(x.DC.Creator[0], a) && zzStrEq(x.DC.Creator[1], b2) && zzStrEq(x.DC.Creator[2], c), "dc:creator items are reported in document order")
 	zzReached("end")
 }
+
+// value lengths that straddle the reader's look-ahead steps (attribute value window 256, +512, +512; tag header window
+// 128 steps). The long value has arbitrary first and last two bytes and a concrete filler in between; it is serialised
+// as an attribute followed by another attribute (layout 0), as the last attribute before "/>" (layout 1), before ">"
+// (layout 2) or as an element (layout 3).
+var zzLongLens = []int{60, 120, 124, 125, 126, 127, 128, 129, 130, 250, 251, 252, 253, 254, 255, 256, 257, 258, 380, 508, 509, 510, 511, 512, 513, 514, 640,
+	762, 763, 764, 765, 766, 767, 768, 769, 770, 900, 1019, 1020, 1021, 1022, 1023, 1024}
+
+func zzLongVal(n int) []byte {
+	v := make([]byte, n)
+	for i := range v {
+		v[i] = 'a' + byte(i%23)
+	}
+	h := zzVal("h", 2)
+	t := zzVal("t", 2)
+	v[0], v[1], v[n-2], v[n-1] = h[0], h[1], t[0], t[1]
+	return v
+}
+
+func zzC13_long_N() int { return 172 } // 4 * len(zzLongLens)
+func zzC13_long() {
+	n := zzLongLens[zzPart()/4]
+	layout := zzPart() % 4
+	zzQuoteClass = 1
+	if layout == 3 {
+		zzQuoteClass = 0
+	}
+	v := zzLongVal(n)
+	md := zzVal("md", 2)
+	b := []byte(zzHead)
+	switch layout {
+	case 0:
+		b = append(b, `<rdf:Description rdf:about="" tiff:Make="`...)
+		b = append(b, v...)
+		b = append(b, `" tiff:Model="`...)
+		b = append(b, md...)
+		b = append(b, `"/>`...)
+	case 1:
+		b = append(b, `<rdf:Description rdf:about="" tiff:Model="`...)
+		b = append(b, md...)
+		b = append(b, `" tiff:Make="`...)
+		b = append(b, v...)
+		b = append(b, `"/>`...)
+	case 2:
+		b = append(b, `<rdf:Description rdf:about="" tiff:Model="`...)
+		b = append(b, md...)
+		b = append(b, `" tiff:Make="`...)
+		b = append(b, v...)
+		b = append(b, `"></rdf:Description>`...)
+	default:
+		b = append(b, `<rdf:Description rdf:about=""><tiff:Make>`...)
+		b = append(b, v...)
+		b = append(b, `</tiff:Make><tiff:Model>`...)
+		b = append(b, md...)
+		b = append(b, `</tiff:Model></rdf:Description>`...)
+	}
+	b = append(b, zzTail...)
+	x, err := ParseXmp(zzReaderOf(b))
+	zzAssert(err == nil, "a well-formed packet with a long value parses without error")
+	zzAssert(zzStrEq(x.Tiff.Make, v), "a long tiff:Make value is reported exactly")
+	zzAssert(zzStrEq(x.Tiff.Model, md), "the property next to a long value is reported exactly")
+	zzReached("end")
+}
+
+// white space between tokens: every white-space slot holds n arbitrary characters of XML's S production
+// (blank, tab, CR, LF); slots that XML lets be empty are empty in the even partitions.
+var zzIsWS = func() (t [256]bool) {
+	t[' '], t['\n'], t['\t'], t['\r'] = true, true, true, true
+	return
+}()
+
+func zzWS(name string, n int) []byte {
+	v := zzBytes(name, n)
+	for _, c := range v {
+		zzAssume(zzIsWS[c])
+	}
+	return v
+}
+
+func zzCat(parts ...interface{}) []byte {
+	var b []byte
+	for _, p := range parts {
+		switch x := p.(type) {
+		case string:
+			b = append(b, x...)
+		case []byte:
+			b = append(b, x...)
+		}
+	}
+	return b
+}
+
+func zzC13_ws_N() int { return 8 }
+func zzC13_ws() {
+	layout, opt := zzPart()/2, zzPart()%2 // opt: number of characters in the optional slots
+	zzQuoteClass = 1
+	if layout == 3 {
+		zzQuoteClass = 0
+	}
+	mk, md := zzVal("mk", 2), zzVal("md", 2)
+	var b []byte
+	switch layout {
+	case 0: // attributes, white space around '=' and before "/>"
+		b = zzCat(zzHead, `<rdf:Description rdf:about=""`, zzWS("w1", 1+opt), `tiff:Make`, zzWS("w2", opt), `=`, zzWS("w3", opt), `"`, mk, `"`, zzWS("w4", 1+opt),
+			`tiff:Model="`, md, `"`, zzWS("w5", opt), `/>`, zzTail)
+	case 1: // attributes, white space before ">" and before the end tag
+		b = zzCat(zzHead, `<rdf:Description`, zzWS("w1", 1+opt), `rdf:about=""`, zzWS("w2", 1), `tiff:Make="`, mk, `"`, zzWS("w4", 1+opt), `tiff:Model="`, md, `"`, zzWS("w5", opt),
+			`>`, zzWS("w6", opt), `</rdf:Description>`, zzTail)
+	case 2: // white space between the structural tags
+		b = zzCat(zzWS("w0", opt), `<x:xmpmeta xmlns:x="adobe:ns:meta/">`, zzWS("w1", opt), `<rdf:RDF xmlns:rdf="http://www.w3.org/1999/02/22-rdf-syntax-ns#">`, zzWS("w2", opt),
+			`<rdf:Description rdf:about="" tiff:Make="`, mk, `" tiff:Model="`, md, `"/>`, zzWS("w3", opt), `</rdf:RDF>`, zzWS("w4", opt), `</x:xmpmeta>`)
+	default: // elements
+		b = zzCat(zzHead, `<rdf:Description rdf:about="">`, zzWS("w1", opt), `<tiff:Make>`, mk, `</tiff:Make>`, zzWS("w2", 1+opt), `<tiff:Model>`, md, `</tiff:Model>`, zzWS("w3", opt),
+			`</rdf:Description>`, zzWS("w4", opt), zzTail)
+	}
+	x, err := ParseXmp(zzReaderOf(b))
+	zzAssert(err == nil, "a well-formed packet parses without error whatever white space separates its tokens")
+	zzAssert(zzStrEq(x.Tiff.Make, mk) && zzStrEq(x.Tiff.Model, md), "values are reported exactly whatever white space separates the tokens")
+	zzReached("end")
+}
+
+// long runs of (concrete) white space between tokens, lengths straddling the 128-byte header look-ahead
+var zzRunLens = []int{100, 110, 111, 112, 116, 117, 118, 119, 120, 125, 126, 127, 128, 129, 130, 200, 239, 240, 254, 255, 256, 257, 300, 383, 384, 500, 511, 512}
+
+func zzC13_space_N() int { return 84 } // 3 * len(zzRunLens)
+func zzC13_space() {
+	n := zzRunLens[zzPart()/3]
+	w := make([]byte, n)
+	for i := range w {
+		w[i] = " \n"[i%7/6]
+	}
+	zzQuoteClass = 1
+	if zzPart()%3 == 1 {
+		zzQuoteClass = 0
+	}
+	mk, md := zzVal("mk", 2), zzVal("md", 2)
+	var b []byte
+	switch zzPart() % 3 {
+	case 0:
+		b = zzCat(zzHead, `<rdf:Description rdf:about=""`, w, `tiff:Make="`, mk, `"`, w, `tiff:Model="`, md, `"/>`, zzTail)
+	case 1:
+		b = zzCat(zzHead, `<rdf:Description rdf:about="">`, w, `<tiff:Make>`, mk, `</tiff:Make>`, w, `<tiff:Model>`, md, `</tiff:Model>`, w, `</rdf:Description>`, zzTail)
+	default:
+		b = zzCat(w, `<x:xmpmeta xmlns:x="adobe:ns:meta/">`, w, `<rdf:RDF xmlns:rdf="http://www.w3.org/1999/02/22-rdf-syntax-ns#">`, w,
+			`<rdf:Description rdf:about="" tiff:Make="`, mk, `" tiff:Model="`, md, `"/>`, w, zzTail)
+	}
+	x, err := ParseXmp(zzReaderOf(b))
+	zzAssert(err == nil, "a well-formed packet parses without error whatever the length of the white space between its tokens")
+	zzAssert(zzStrEq(x.Tiff.Make, mk) && zzStrEq(x.Tiff.Model, md), "values are reported exactly whatever the length of the white space between the tokens")
+	zzReached("end")
+}
